@@ -18,6 +18,7 @@ pub static DEF: PropDef = PropDef {
     ],
     run,
     replay,
+    fuzz: None,
 };
 
 pub const MAX_ARG_STRLEN: usize = 131072;
